@@ -180,6 +180,19 @@ def U():
     return "; ".join(out) or None
 
 
+def Z():
+    """the library's self-check fails on a model with same-named spaces at different levels"""
+    m = _reset()
+    B_ = m.new_space("B")
+    B_.new_space("Ch")
+    B_.new_space("Gc").new_space("Ch")
+    try:
+        mx.core.mxsys._check_sanity()
+    except AssertionError:
+        return "_check_sanity fails for B.Ch + B.Gc.Ch"
+    return None
+
+
 # ------------------------------------------------------------------ C03
 def B():
     """redefining a base cells overwrites copies deriving from an override in between"""
@@ -329,6 +342,74 @@ def X():
     return "; ".join(out) or None
 
 
+def V():
+    """a reference change in a space does not clear cached callers (in other spaces) of its uncached cells"""
+    m = _reset()
+    A_, B_ = m.new_space("A"), m.new_space("B")
+    A_.x = 1
+    A_.new_cells("u", formula="def u(i):\n    return x * 10 + i", is_cached=False)
+    B_.new_cells("c", formula="def c(i):\n    return _model.A.u(i)")
+    B_.c(1)
+    A_.x = 2
+    return None if B_.c(1) == 21 else "B.c(1) == %r after A.x = 2" % B_.c(1)
+
+
+def Y():
+    """creating / deleting a reference in a child space of a parametrised space keeps the live ItemSpaces"""
+    m = _reset()
+    m.g = 2
+    A_ = m.new_space("A", formula="lambda p: None")
+    Ch = A_.new_space("Ch")
+    Ch.s = 7
+    Ch.new_cells("f", formula="def f(x):\n    return _space.s + g + x")
+    A_[1].Ch.f(0)
+    out = []
+    Ch.g = 70
+    try:
+        v = A_[1].Ch.f(0)
+        if v != 77:
+            out.append("A[1].Ch.f(0) == %r after Ch.g = 70" % v)
+    except Exception:     # noqa
+        out.append("A[1].Ch.f(0) raises %s after Ch.g = 70" % type(mx.get_error()).__name__)
+    del Ch.s
+    try:
+        out.append("A[1].Ch.f(0) still returns %r after `del Ch.s`" % A_[1].Ch.f(0))
+    except Exception:     # noqa
+        pass
+    return "; ".join(out) or None
+
+
+def AA():
+    """an input assigned after its element was cleared by a reference change is wiped by a later reference change"""
+    m = _reset()
+    B_ = m.new_space("B")
+    Ch = B_.new_space("Ch")
+    Ch.t = 5
+    B_.t = 9
+    B_.new_cells("c0", formula="def c0(x):\n    return _model.B.t + x")
+    B_.new_cells("c4", formula="def c4(x):\n    return Ch.t + c0(x)")
+    B_.c4(0)
+    del B_.t
+    B_.c4[0] = 124
+    Ch.t = 29
+    return None if dict(B_.c4) == {0: 124} else "input B.c4[0] lost: %r" % dict(B_.c4)
+
+
+def BB():
+    """deleting a space keeps values computed through its uncached cells"""
+    m = _reset()
+    D_, T_ = m.new_space("D"), m.new_space("T")
+    D_.w = 7
+    D_.new_cells("bc", formula="def bc(x):\n    return x + w", is_cached=False)
+    T_.new_cells("tb", formula="def tb(x):\n    return _model.D.bc(x)")
+    T_.tb(1)
+    del m.D
+    try:
+        return "T.tb(1) still returns %r after `del model.D`" % T_.tb(1)
+    except Exception:     # noqa
+        return None
+
+
 # ------------------------------------------------------------------ C15
 def M():
     """export: comprehension following a nested class scope"""
@@ -446,7 +527,7 @@ def R():
     return None
 
 
-ALL = [A, F, G, U, I, J, K, L, T, B, D, E, a, b, c, H, W, X, M, N, O, P, Q, R]
+ALL = [A, F, G, U, I, J, K, L, T, Z, B, D, E, a, b, c, H, W, X, V, Y, AA, BB, M, N, O, P, Q, R]
 
 
 if __name__ == "__main__":
